@@ -232,7 +232,7 @@ public:
                 index |= (mcoord[idxDim] & mask);
                 mask <<= 1;
                 mcoord[idxDim] <<= (Dim-1);
-                shouldContinue |= ((mask << (Dim - idxDim - 1)) <= mcoord[idxDim]);
+                shouldContinue |= (mask <= (mcoord[idxDim] >> (Dim-1)));
             }
         }
 
